@@ -29,19 +29,23 @@ def observe(case):
                 np.asarray(V.distance, float), V)
 
 
-def margin_ok(d, edges, maxlag_abs, tol=1e-9):
-    pts = list(edges)
-    if maxlag_abs is not None:
-        pts.append(maxlag_abs)
-    if not pts:
-        return True
-    pts = np.array(pts)
-    rel = np.abs(d[:, None] - pts[None, :]) / np.maximum(1.0, np.abs(pts[None, :]))
-    near = rel <= tol
-    # a single pair sitting exactly on an edge is the pair the edge was derived from (largest distance, a quantile,
-    # the median): after an inexact transform the edge moves with it. Near misses and tied pairs can flip.
-    single_exact = (near.sum(axis=0) == 1) & ((rel == 0).sum(axis=0) == 1)
-    return bool(np.all((near.sum(axis=0) == 0) | single_exact))
+def margin_ok(d, edges, maxlag_abs, tol=1e-9, maxlag_derived=False):
+    """no pair can change its class or drop out under a transform that moves distances by rounding"""
+    edges = np.asarray(list(edges), float)
+    ok = True
+    if len(edges):
+        rel = np.abs(d[:, None] - edges[None, :]) / np.maximum(1.0, np.abs(edges[None, :]))
+        near = rel <= tol
+        # a single pair sitting exactly on an edge is the pair the edge was derived from (largest distance, a quantile):
+        # after an inexact transform the edge moves with it. Near misses and tied pairs can flip.
+        single_exact = (near.sum(axis=0) == 1) & ((rel == 0).sum(axis=0) == 1)
+        ok = bool(np.all((near.sum(axis=0) == 0) | single_exact))
+    if ok and maxlag_abs is not None:
+        relm = np.abs(d - maxlag_abs) / max(1.0, abs(maxlag_abs))
+        nearm = relm <= tol
+        # a maximum lag given by the caller does not move with the data; one derived from it (unset, 'median') does
+        ok = bool(nearm.sum() == 0 or (maxlag_derived and nearm.sum() == 1 and (relm == 0).sum() == 1))
+    return ok
 
 
 def transforms(rng, case, coords, values):
@@ -143,7 +147,7 @@ def check_base(ctx, case):
             # rule-based bin counts may flip on 1-ulp changes of the data range
             continue
         if not exact and name in ('translate_int', 'translate_real', 'rotate', 'scale_coords', 'swap_axes') and \
-                not margin_ok(d0, e0, ml_abs):
+                not margin_ok(d0, e0, ml_abs, maxlag_derived=(ml is None or ml == 'median')):
             ctx.count('skipped_edge_tie')
             continue
         tc = dict(case, coords=nc.tolist(), values=nv.tolist(), coord_dtype='float64')
@@ -186,6 +190,30 @@ def check_base(ctx, case):
             ctx.violation('invariance-' + name, '%s changed under %s (bin_func=%s, estimator=%s): expected %r, got %r'
                           % (bad[0], name, binf, est, bad[1], bad[2]), dict(tc, transform=name, base=case),
                           signature=sig)
+        # the same relation on an instance whose observations are replaced in place (it had computed everything for the
+        # old ones): the result is the one of the instance built from the new observations
+        if not bad and len(tr) == 6 and name.startswith(('shift_values', 'scale_values')) and not clustering:
+            try:
+                Vb = vario.build(dict(case, dtype='float64'))
+                with quiet():
+                    np.asarray(Vb.experimental)
+                    if ctx.rng.random() < 0.5:
+                        Vb.values = nv.copy()
+                        how = 'values setter'
+                    else:
+                        Vb.set_values(nv.copy(), calc_diff=bool(ctx.rng.random() < 0.5))
+                        how = 'set_values'
+                    e2, c2, x2 = np.asarray(Vb.bins, float), np.asarray(Vb.bin_count), np.asarray(Vb.experimental, float)
+            except (ValueError, AttributeError, RuntimeError) as e:
+                ctx.reject('in-place:' + type(e).__name__)
+                continue
+            ctx.count('in_place:' + name)
+            if len(e2) != len(e1) or not all_close(e2, e1, rel=1e-12) or c2.tolist() != c1.tolist() or \
+                    not all_close(x2, x1, rel=1e-9):
+                ctx.violation('invariance-' + name + '-in-place', 'after replacing the observations of a computed instance (%s) by '
+                              'the transformed ones: edges %r counts %r experimental %r, an instance built from them gives %r %r %r'
+                              % (how, e2.tolist(), c2.tolist(), x2.tolist(), e1.tolist(), c1.tolist(), x1.tolist()),
+                              dict(tc, transform=name, base=case), signature=dict(kind='metamorphic-in-place', transform=name))
     # tie the (permuted) instance to the model as well
     if ctx.rng.random() < 0.25:
         perm = ctx.rng.permutation(len(values))
